@@ -270,6 +270,9 @@ class HPost(common.Harness):
 NORM_REPORTERS = [
     # (written reporter string, canonical edition string it is unambiguously mapped to)
     ("U.S.", "U.S."), ("U. S.", "U.S."), ("Misc. 3d", "Misc. 3d"), ("Misc 3d", "Misc. 3d"), ("NY Slip Op", "NY Slip Op"), ("N.Y. Slip Op.", "NY Slip Op"),
+    # a variation of two editions of different reporters (both called 'Dall.'): no edition can be guessed, the
+    # citation is equal only to citations spelled the same way, so its normal form must keep the spelling
+    ("Dallas", None),
 ]
 NORM_SUFFIXES = ["", "[U]", "(U)", "[A]", "(A)"]
 
@@ -305,7 +308,11 @@ class HNorm(common.Harness):
         M, CStr = self.M, self.symre.CStr
         sp = [32]
         data = CStr(list(vol) + sp + [ord(c) for c in rep] + sp + list(page))
-        tok = M.CitationToken(data, 0, len(data), groups={"volume": CStr(list(vol)), "reporter": rep, "page": CStr(list(page))}, exact_editions=(edition,) if rep == edition.short_name else (), variation_editions=() if rep == edition.short_name else (edition,))
+        if isinstance(edition, tuple):
+            ex_, va_ = (), edition
+        else:
+            ex_, va_ = ((edition,), ()) if rep == edition.short_name else ((), (edition,))
+        tok = M.CitationToken(data, 0, len(data), groups={"volume": CStr(list(vol)), "reporter": rep, "page": CStr(list(page))}, exact_editions=ex_, variation_editions=va_)
         # built through the interpreted __post_init__ (placeholder-page test on the symbolic page included)
         c = self.interp.instantiate(M.FullCaseCitation, (tok, 0), {"exact_editions": tok.exact_editions, "variation_editions": tok.variation_editions})
         c.edition_guess = None
@@ -318,7 +325,12 @@ class HNorm(common.Harness):
 
         ri = eng.choose([z3.Int("reporter") == k for k in range(len(NORM_REPORTERS))])
         rep, canon = NORM_REPORTERS[ri]
-        edition = T.EDITIONS_LOOKUP[canon][0]
+        self.ambiguous = canon is None
+        if canon is None:
+            canon = rep
+            edition = tuple(T.EDITIONS_LOOKUP[rep])
+        else:
+            edition = T.EDITIONS_LOOKUP[canon][0]
         nv = 1 + eng.choose([z3.Int("nvol") == k for k in range(2)])
         np_ = 1 + eng.choose([z3.Int("npage") == k for k in range(2)])
         suf = NORM_SUFFIXES[eng.choose([z3.Int("suffix") == k for k in range(len(NORM_SUFFIXES))])]
